@@ -64,7 +64,13 @@ where
 			// string from a &str reference, which probably explains the
 			// difference.
 			let mut de = serde_json::Deserializer::from_reader(BufReader::new(r));
-			while de.end().is_err() {
+			while let Err(err) = de.end() {
+				// Anything but an I/O error means there is more input to parse.
+				// An I/O error must surface as itself rather than as whatever
+				// the output makes of being asked for another document.
+				if err.is_io() {
+					return Err(err.into());
+				}
 				output.transcode_from(&mut de)?;
 			}
 		}
